@@ -137,10 +137,23 @@ def shard_run(arg):
     return sh.dict()
 
 
+def enum_single_variable():
+    """every subset of the five behaviours on ONE variable in ONE scope (plus the same variable in scope "all"), every value
+    combination: the interplay of append / default / delim / override / prepend on one name"""
+    for scope in SCOPES:
+        for k in range(3, 6):
+            for behs in itertools.combinations(envmodel.BEHAVIOURS, k):
+                for vals in itertools.product(VALUES, repeat=k):
+                    e = [(scope, b, b"A", v) for b, v in zip(behs, vals)]
+                    yield e
+                    if scope != "all" and k == 3:
+                        yield e + [("all", "prepend", b"A", b"x"), ("all", "delim", b"A", b"y:z")]
+
+
 def run(tier, seed, work):
     res = vp.Result("C04", tier, seed, "exploration")
     maxk = 2 if tier == "quick" else 3
-    envs = list(enum_envs(maxk))
+    envs = list(enum_envs(maxk)) + list(enum_single_variable())
     nrand = 3000 if tier == "quick" else 100000
     shards = [("enum", s, seed) for s in vp.split(envs, vp.NCPU * 4)]
     shards += [("rand", s, seed) for s in vp.split(range(nrand), vp.NCPU)]
